@@ -734,7 +734,7 @@ class PendingAugAssign(PendingNode[AugAssign]):
             fallback = NamedExpr(
                 target=target, value=BinOp(left=target, op=op, right=value)
             )
-        return IfExp(
+        return IfExp(  # type: ignore
             test=Call(
                 func=Name(id="hasattr", ctx=Load()),
                 args=[target, Constant(value=op_name)],
@@ -754,17 +754,18 @@ class PendingAugAssign(PendingNode[AugAssign]):
         assign_value = expr_transf(self.nsp, self.node.value)
         if isinstance(self.node.target, Name):
             target = self.nsp.get_load_name(self.node.target.id)
-            return [
-                self._aug_assign_expr(
-                    target,
-                    self.node.op,
-                    assign_value,
-                    fallback=self.nsp.get_assign(
-                        self.node.target.id,
-                        BinOp(left=target, op=self.node.op, right=assign_value),
-                    ),
-                )
-            ]
+            _aug_expr = self._aug_assign_expr(
+                target,
+                self.node.op,
+                assign_value,
+                fallback=self.nsp.get_assign(
+                    self.node.target.id,
+                    BinOp(left=target, op=self.node.op, right=assign_value),
+                ),
+            )
+            # x += v rebinds x to whatever the in-place method returns
+            _aug_expr.body = self.nsp.get_assign(self.node.target.id, _aug_expr.body)
+            return [_aug_expr]
         elif isinstance(self.node.target, Subscript):
             # todo: could be optimized if slice is const
             tmp_slice_name = Name(id=ol_name(OL_AUGASSIGN_SLICE_TMP))
